@@ -18,6 +18,8 @@ import (
 	"fmt"
 	"go/scanner"
 	"go/token"
+	"io"
+	"regexp"
 	"strings"
 	"testing"
 
@@ -28,7 +30,7 @@ import (
 )
 
 type Op struct {
-	Kind   string `json:"kind"`   // "append" | "clone" | "doclone" (Clone of the callback parameter inside Do, with appends before and after it in the callback) | "addstmt" (Add of another live statement, Arg)
+	Kind   string `json:"kind"` // "append" | "clone" | "doclone" (Clone of the callback parameter inside Do, with appends before and after it in the callback) | "addstmt" (Add of another live statement, Arg)
 	Arg    int    `json:"arg,omitempty"`
 	Target int    `json:"target"` // index into the list of live statements (taken modulo its length)
 	Via    string `json:"via,omitempty"`
@@ -40,7 +42,7 @@ type Case struct {
 	Ops  []Op `json:"ops"`
 }
 
-var vias = []string{"id", "op", "lit", "dot", "call", "add", "index", "qual", "tag", "tag", "caseblock", "defaultblock", "casehead", "defaulthead", "blockafter", "blockafter"}
+var vias = []string{"id", "op", "lit", "dot", "call", "add", "index", "qual", "qualconf", "tag", "tag", "caseblock", "defaultblock", "casehead", "defaulthead", "blockafter", "blockafter"}
 
 func genCase(maxOps int) func(t *rapid.T) Case {
 	return func(t *rapid.T) Case {
@@ -104,6 +106,7 @@ type st struct {
 func render(s *jen.Statement) ([]string, error) {
 	f := jen.NewFile("p")
 	f.NoFormat = true
+	f.Add(jen.Id("ZZSTART"))
 	f.Add(s)
 	buf := &bytes.Buffer{}
 	if err := f.Render(buf); err != nil {
@@ -126,12 +129,18 @@ func render(s *jen.Statement) ([]string, error) {
 		if lit == "" {
 			lit = tok.String()
 		}
-		toks = append(toks, lit)
+		toks = append(toks, confName(lit))
 	}
 	if len(toks) < 2 || toks[0] != "package" || toks[1] != "p" {
 		return nil, fmt.Errorf("unexpected file head %q", toks)
 	}
-	return toks[2:], nil
+	// (an import block may stand between the package clause and the first item)
+	for i, t := range toks {
+		if t == "ZZSTART" {
+			return toks[i+1:], nil
+		}
+	}
+	return nil, fmt.Errorf("start marker not found in %q", toks)
 }
 
 // selfContained reports whether s can be reached from itself through *Statement items.
@@ -170,19 +179,60 @@ func scanLine(line string) ([]string, error) {
 		if lit == "" {
 			lit = tok.String()
 		}
-		toks = append(toks, lit)
+		toks = append(toks, confName(lit))
 	}
 	return toks, nil
 }
 
+var confRe = regexp.MustCompile(`^conf[0-9]+$`)
+
+// confName: conf1, conf2, ... are read as conf (which of two packages called conf gets the bare name depends on
+// the File, not on the statement).
+func confName(t string) string {
+	if confRe.MatchString(t) {
+		return "conf"
+	}
+	return t
+}
+
+type failingWriter struct{}
+
+func (failingWriter) Write(p []byte) (int, error) { return 0, fmt.Errorf("writer fails") }
+
 func check(c Case) error {
 	counter := 0
-	next := func() string { counter++; return fmt.Sprintf("t%d", counter) }
+	next := func() string {
+		counter++
+		if counter%3 == 0 {
+			// long names of one length that agree in their first forty bytes
+			return fmt.Sprintf("OrganizationsLocationsRepositoriesPackagesGet%05dCall", counter)
+		}
+		return fmt.Sprintf("t%d", counter)
+	}
 	// apply appends one token-producing call and returns the tokens it must add
 	// endsInCase: the statement's own last item is a Case group or the default keyword (then a Block appended
 	// next renders as a clause body, without braces); a fresh clone's only item is the statement it wraps
 	endsInCase := map[*jen.Statement]bool{}
 	hasOwn := map[*jen.Statement]bool{} // something was appended to the statement itself since it was created
+	hasConf := map[*jen.Statement]bool{}
+	// fragment: the statement rendered on its own (Statement.Render) right after a fragment of another
+	// statement failed to render gives what RenderWithFile with a fresh File gives
+	fragment := func(step int, s *jen.Statement) error {
+		func() {
+			defer func() { _ = recover() }()
+			_ = jen.Qual("example.com/zero/conf", "Z").Op(")").Render(io.Discard)
+			_ = jen.Qual("example.com/zero/conf", "Z").Render(failingWriter{})
+		}()
+		b1, b2 := &bytes.Buffer{}, &bytes.Buffer{}
+		var e1, e2 error
+		if perr := hx.Safe(func() error { e1 = s.Render(b1); e2 = s.RenderWithFile(b2, jen.NewFile("")); return nil }); perr != nil {
+			return nil
+		}
+		if e1 == nil && e2 == nil && !bytes.Equal(b1.Bytes(), b2.Bytes()) {
+			return fmt.Errorf("step %d: a statement rendered with Statement.Render, right after a fragment of another statement had failed to render, gives %q; RenderWithFile with a fresh File gives %q", step, b1.Bytes(), b2.Bytes())
+		}
+		return nil
+	}
 	var list []*st
 	entry := func(s *jen.Statement) *st {
 		for _, x := range list {
@@ -275,6 +325,13 @@ func check(c Case) error {
 			a := next()
 			s.Qual("", a) // the empty path is the local path of NewFile("p"): renders bare
 			return []string{a}
+		case "qualconf":
+			// two packages called conf: whichever a File meets first is conf there, the other conf1 (rendered
+			// names are compared with the digits removed, see confName)
+			a := next()
+			s.Qual([]string{"example.com/one/conf", "example.com/two/conf"}[counter%2], a)
+			hasConf[s] = true
+			return []string{"conf", ".", a}
 		case "add":
 			var items []jen.Code
 			var toks []string
@@ -393,7 +450,11 @@ func check(c Case) error {
 		if err := pf.Render(buf); err != nil {
 			return nil, err
 		}
-		toks, err := scanLine(strings.TrimPrefix(buf.String(), "package p\n\n"))
+		body := buf.String()
+		if i := strings.Index(body, "ZZSEP"); i >= 0 {
+			body = body[i:] // (package clause and import block cut off)
+		}
+		toks, err := scanLine(body)
 		if err != nil {
 			return nil, err
 		}
@@ -577,6 +638,15 @@ func check(c Case) error {
 			}
 		case "append":
 			list[i].own = append(list[i].own, apply(list[i].s, op.Via, op.N)...)
+			if op.Via == "qualconf" {
+				for _, x := range list {
+					if hasConf[x.s] || x.parent == i {
+						if err := fragment(step, x.s); err != nil {
+							return err
+						}
+					}
+				}
+			}
 		}
 		if err := verify(step, op.Kind); err != nil {
 			return err
